@@ -790,7 +790,11 @@ class TurtleWriter:
 
     # ---------------- node rendering
     def obj(self, o, g):
-        if o[0] == "I":
+        if o[0] == "I" and o[1] == RDF_NIL and self.ch.flag("empty_collection", 0.6):
+            # [15] collection ::= '(' object* ')' with no object: the empty list is rdf:nil
+            self.emit("(", "punct")
+            self.emit(")", "punct")
+        elif o[0] == "I":
             self.iri(o[1])
         elif o[0] == "L":
             self.literal(o)
@@ -851,7 +855,11 @@ class TurtleWriter:
 
     def subject_group(self, s, g, pos):
         ch = self.ch
-        if s[0] == "I":
+        if s[0] == "I" and s[1] == RDF_NIL and pos and ch.flag("empty_collection", 0.6):
+            self.emit("(", "punct")          # [10] subject ::= iri | BlankNode | collection — the empty one
+            self.emit(")", "punct")
+            self.pred_obj_list(pos, g)
+        elif s[0] == "I":
             self.iri(s[1])
             self.pred_obj_list(pos, g)
         elif s in self.lists and self.occ_obj[s] == 0:
@@ -1060,7 +1068,7 @@ def write_turtle(quads, ch, trig, base):
 
 # ------------------------------------------------------------------ RDF/XML
 
-XML_FEATURES = ["x_typed_node", "x_prop_attr", "x_parse_resource", "x_nested_node", "x_collection", "x_lang_inherit",
+XML_FEATURES = ["x_empty_collection", "x_typed_node", "x_prop_attr", "x_parse_resource", "x_nested_node", "x_collection", "x_lang_inherit",
                 "x_base", "x_id", "x_li", "x_charref", "x_cdata", "x_no_root", "x_default_ns", "x_indent", "x_split_node",
                 "x_type_attr", "x_decl", "x_squote_attr", "x_nested_base"]
 _NCNAME_TAIL = re.compile(r"[A-Za-z_][A-Za-z0-9_.\-]*$")
@@ -1294,6 +1302,12 @@ def write_rdfxml(quads, ch, base):
             pname = "rdf:li" if tag == "li" else qn(p[1])
             if o[0] == "L":
                 el.kids.append(lit_el(pname, o, lang_scope))
+            elif o[0] == "I" and o[1] == RDF_NIL and tag != "li" and ch.flag("x_empty_collection", 0.6):
+                # the empty list: a parseType="Collection" property element without member node elements
+                e = _El(pname, [("rdf:parseType", "Collection")], [])
+                if ch.pick(3) == 0:
+                    e.text = ch.choice([" ", "\n", "\n    ", "\t"])
+                el.kids.append(e)
             elif o[0] == "I":
                 nestable = o not in stack and o in by_subj and o not in done and o not in top_only
                 if nestable and ch.flag("x_nested_node", 0.3):
@@ -1470,7 +1484,7 @@ def write_rdfxml(quads, ch, base):
 
 # ------------------------------------------------------------------ JSON-LD
 
-JSONLD_FEATURES = ["j_prefix", "j_term", "j_vocab", "j_base", "j_language", "j_coerce_id", "j_coerce_dt", "j_container_list",
+JSONLD_FEATURES = ["j_empty_list", "j_type_scoped", "j_prop_scoped", "j_embedded_ctx", "j_propagate_false", "j_propagate_true", "j_prefix", "j_term", "j_vocab", "j_base", "j_language", "j_coerce_id", "j_coerce_dt", "j_container_list",
                    "j_list", "j_reverse", "j_native", "j_expanded", "j_graph_wrap", "j_type_kw", "j_ascii", "j_indent",
                    "j_arrays", "j_nested", "j_split_node", "j_ctx_array", "j_vocab_term"]
 _GEN_DELIM_END = re.compile(r"[:/?#\[\]@]$")
@@ -1651,6 +1665,12 @@ def write_jsonld(quads, ch, base):
             if co is None and dlang is None and not expanded and ch.pick(3):
                 return lex
             return {"@value": lex}
+        if o == NIL and p[1] != "urn:none":
+            if isinstance(co, tuple) and co[0] == "@list":
+                ch.used["j_empty_list"] += 1
+                return []                      # "@container": "@list" and an empty array: the empty list
+            if ch.flag("j_empty_list", 0.6):
+                return {"@list": []}           # rdf:nil
         if o in lists:
             arr = [value(it, ("I", "urn:none"), g, stack) for it in lists[o]]
             if isinstance(co, tuple) and co[0] == "@list":
@@ -1694,15 +1714,100 @@ def write_jsonld(quads, ch, base):
                 nest.discard(x)
     # an embedded node inside a list item is fine; a list head is never embedded as a node
 
+    # ---- scoped contexts (JSON-LD 1.1 section 4.1.8), decided before anything is rendered.
+    #   type-scoped:     "Kls0": {"@id": class, "@context": {…}}  applies to the node object typed "Kls0" only
+    #                    (with "@propagate": true also to what is nested in it)
+    #   property-scoped: "term": {"@id": p, "@context": {…}}      applies to the node objects that are values of "term"
+    #                    and to what is nested in them (with "@propagate": false to those values only)
+    #   embedded:        a nested node object's own "@context"     the same, from that node object on
+    # A scoped context defines fresh terms for predicates used where it applies, or re-defines a term of the document
+    # context with another meaning (so that a reader that applies it too widely, or not at all, reads another graph).
+    fresh_names = iter("sc%d" % n for n in range(1000))
+
+    def scoped_map(ps, prefer=()):
+        m = {}
+        cands = sorted({p[1] for p in ps if p[1] != RDF_TYPE})
+        ch.shuffle(cands)
+        for p in cands[: 1 + ch.pick(2)]:
+            shadow = sorted(t for t, q in terms.items() if q != p and t not in m)
+            hot = [t for t in shadow if terms[t] in prefer]      # terms that node objects nested here use with their outer meaning
+            if hot and ch.pick(4):
+                m[ch.choice(hot)] = p
+            elif shadow and ch.pick(2):
+                m[ch.choice(shadow)] = p
+            else:
+                m[next(fresh_names)] = p
+        return m
+
+    type_scope, prop_scope = {}, {}
+    if not expanded:
+        for (s0, g0) in sorted(by_sg, key=lambda x: (x[0], str(x[1]))):
+            cls = [o for p, o in by_sg[(s0, g0)] if p[1] == RDF_TYPE and o[0] == "I"]
+            if len(cls) == 1 and cls[0][1] not in type_scope and len(by_sg[(s0, g0)]) > 1 and ch.flag("j_type_scoped", 0.75):
+                below = {p[1] for _, o in by_sg[(s0, g0)] if o in nest for p, _ in by_sg.get((o, g0), [])} - {RDF_TYPE}
+                if below and not any(q in below for q in terms.values()) and tnames and ch.pick(4):
+                    q = ch.choice(sorted(below))           # make sure a nested node object has a term of the document context to use
+                    if q not in key_of:
+                        t = tnames.pop()
+                        terms[t] = q
+                        key_of[q] = t
+                m = scoped_map([p for p, o in by_sg[(s0, g0)]], below)
+                if m:
+                    type_scope[cls[0][1]] = ("Kls%d" % len(type_scope), m, ch.flag("j_propagate_true", 0.25))
+        for t in sorted(terms):
+            inner = [o for o in by_pred[terms[t]] if o in nest]
+            ips = [p for o in inner for p, _ in by_sg.get((o, next(iter(graphs_of[o]))), [])]
+            if inner and ips and ch.flag("j_prop_scoped", 0.6):
+                m = scoped_map(ips)
+                m.pop(t, None)
+                if m:
+                    prop_scope[t] = (m, not ch.flag("j_propagate_false", 0.3))
+    # the scope in force where a node object is written: (term overrides, what nested node objects revert to or None)
+    scope_stack = [({}, None, False)]
+
     def node(s, g, stack, pos=None):
         pos = list(by_sg.get((s, g), [])) if pos is None else list(pos)
         ch.shuffle(pos)
         obj = {}
         entries = []
+        outer, revert, under_type_scope = scope_stack[-1]
+        nested_here = len(scope_stack) > 1
         if not (s[0] == "B" and s in nest and occ_obj[s] == 1 and ch.pick(2)):
             entries.append(("@id", id_ref(s)))
         types = [o for p, o in pos if p[1] == RDF_TYPE and o[0] == "I"]
-        if types and ch.flag("j_type_kw", 0.8):
+        mine, child_base, own_nonprop_type, type_map = dict(outer), (dict(outer) if revert is None else dict(revert)), False, None
+        # an embedded context on a nested node object
+        plain_ps = [p for p, o in pos if p[1] != RDF_TYPE]
+        emb_nonprop = False
+        if nested_here and revert is None and plain_ps and not expanded and ch.flag("j_embedded_ctx", 0.85 if under_type_scope else 0.3):
+            m = scoped_map(plain_ps)
+            emb = dict(m)
+            emb_nonprop = ch.flag("j_propagate_false", 0.3)
+            if emb_nonprop:
+                emb["@propagate"] = False
+            else:
+                child_base.update(m)
+            mine.update(m)
+            if under_type_scope:
+                ch.used["j_embedded_under_type_scope"] += 1
+                if any(t in terms and terms[t] in {q[1] for q in plain_ps} for t in under_type_scope):
+                    ch.used["j_embedded_under_shadowing_type_scope"] += 1
+            items_ = list(emb.items())
+            ch.shuffle(items_)
+            entries.append(("@context", dict(items_)))
+        if len(types) == 1 and types[0][1] in type_scope and revert is None and not emb_nonprop and ch.pick(5):
+            # the type written as the term that carries the type-scoped context
+            name, m, prop = type_scope[types[0][1]]
+            type_map = m
+            pos = [(p, o) for p, o in pos if not (p[1] == RDF_TYPE and o[0] == "I")]
+            entries.append(("@type", name if ch.pick(2) else [name]))
+            mine.update(m)
+            ch.used["j_type_scoped_used"] += 1
+            if prop:
+                child_base.update(m)
+            else:
+                own_nonprop_type = True
+        elif types and ch.flag("j_type_kw", 0.8):
             pos = [(p, o) for p, o in pos if not (p[1] == RDF_TYPE and o[0] == "I")]
             tv = [compact_iri(o[1]) for o in types]
             entries.append(("@type", tv[0] if len(tv) == 1 and not expanded and ch.pick(2) else tv))
@@ -1710,9 +1815,40 @@ def write_jsonld(quads, ch, base):
         for p, o in pos:
             groups[p].append(o)
         for p, os_ in groups.items():
-            k = key(p)
+            has_inner = any(o[0] == "B" for o in os_)
+            sk = sorted(t for t, q in mine.items() if q == p[1])
+            if sk and p[1] != RDF_TYPE and ch.pick(5):
+                k = ch.choice(sk)                      # a term of the scoped context in force
+                used_key[p[1]] = None
+                ch.used["j_scoped_key"] += 1
+            else:
+                k = key(p)
+                if under_type_scope and key_of.get(p[1]) in under_type_scope and ch.pick(8):
+                    # the enclosing node object's type-scoped context gives this term another meaning; here it has the outer one
+                    k = key_of[p[1]]
+                    used_key[p[1]] = k
+                    ch.used["j_outer_term_under_type_scope"] += 1
+                if k in mine and mine[k] != p[1]:      # re-defined in scope: not this predicate any more
+                    k = p[1]
+                    used_key[p[1]] = None
+                elif k in prop_scope and k == key_of.get(p[1]) and has_inner and own_nonprop_type:
+                    k = p[1]                           # (a property-scoped context under a non-propagated type-scoped one: kept apart)
+                    used_key[p[1]] = None
+                if k != key_of.get(p[1]) and k in terms:
+                    k = p[1]                           # a vocab-relative name that happens to be a term of another predicate
+                    used_key[p[1]] = None
+            cb, rv = dict(child_base), None
+            if k in prop_scope and k == key_of.get(p[1]) and used_key.get(p[1]) == k and k not in {t for t in mine if mine[t] != terms.get(t)}:
+                m, prop = prop_scope[k]
+                if has_inner:
+                    ch.used["j_prop_scoped_used"] += 1
+                if not prop:
+                    rv = dict(child_base)
+                cb.update(m)
+            scope_stack.append((cb, rv, own_nonprop_type and type_map))
             # co-decide: a coercing term is used for every value of the predicate in this node
             vals = [value(o, p, g, stack) for o in os_]
+            scope_stack.pop()
             if len(vals) == 1 and not expanded and not ch.flag("j_arrays", 0.3) and not isinstance(vals[0], list):
                 entries.append((k, vals[0]))
             else:
@@ -1735,7 +1871,8 @@ def write_jsonld(quads, ch, base):
     # container @list coercion: decided before rendering, only for predicates all of whose objects are list heads
     for t, p in terms.items():
         objs = by_pred[p]
-        if t not in coerce and objs and all(o in lists for o in objs) and len(objs) == 1 and ch.flag("j_container_list", 0.6):
+        if t not in coerce and objs and all(o in lists or o == NIL for o in objs) and len(objs) == 1 \
+                and "j_empty_list" not in (ch.off if objs[0] == NIL else ()) and ch.flag("j_container_list", 0.6):
             coerce[t] = ("@list",)
 
     graphs = defaultdict(list)
@@ -1812,6 +1949,17 @@ def write_jsonld(quads, ch, base):
             ctx[t] = {**d, "@language": co[1]}
         else:
             ctx[t] = {**d, "@type": co}
+    for t, (m, prop) in prop_scope.items():
+        sc = dict(m)
+        if not prop:
+            sc["@propagate"] = False
+        d = ctx[t] if isinstance(ctx[t], dict) else {"@id": ctx[t]}
+        ctx[t] = {**d, "@context": sc}
+    for cls, (name, m, prop) in type_scope.items():
+        sc = dict(m)
+        if prop:
+            sc["@propagate"] = True
+        ctx[name] = {"@id": cls, "@context": sc}
     if vocab is not None:
         ctx["@vocab"] = vocab
     if doc_base != base:
